@@ -184,7 +184,8 @@ Reco(w, t) ==
 \* ReflectServer::AttachNewSession()
 Attach(w, n) ==
    LET w1 == [w EXCEPT !.tbl = Append(@, n), !.ses[n].life = "att", !.ses[n].full = IF Dev("FullBeforeAttach") THEN 1 ELSE @]
-       w2 == CB(w1, n, "Att", w.ses[n].ok)
+       w2a == IF Dev("DetachWithoutAttach") /\ w.ses[n].ok = 0 THEN w1 ELSE CB(w1, n, "Att", w.ses[n].ok)
+       w2 == IF Dev("AttachTwice") THEN Emit(w2a, n, "Att", w.ses[n].ok) ELSE w2a
    IN IF w.ses[n].ok = 1 THEN [w |-> [w2 EXCEPT !.ses[n].full = 1, !.h[n].attok = 1], ok |-> 1]
       ELSE LET w3 == CB(w2, n, "Det", 0)                                       \* "well, it *was* attached, if only for a moment" - the headers are silent: see DetachOnlyAttached
            IN [w |-> [w3 EXCEPT !.h[n].dr = 1, !.ses[n].life = "det", !.ses[n].full = 0, !.tbl = Without(@, n)], ok |-> 0]
@@ -223,6 +224,8 @@ Do(w, self, act, t) ==
      [] OTHER -> w
 
 \* ------------------------------------------------------------------------------------------------ where the event loop goes next
+\* a connect that was refused, looked at by a session that does not (any longer) regard itself as connecting: the socket reports its error to a reader
+Broken(cr) == cr.st = "conn" /\ cr.up = 0
 RECURSIVE Norm(_, _)
 Norm(w, p) ==
    CASE p.p = "ducks" -> IF w.ducks # <<>> THEN p ELSE Norm(w, [p EXCEPT !.p = p.nx])
@@ -230,14 +233,15 @@ Norm(w, p) ==
           IF p.i > Len(w.tbl) THEN Norm(w, [p EXCEPT !.p = "acc", !.sub = ""])
           ELSE LET s == w.tbl[p.i]  q == w.ses[s]  c == CnOf(w, s) IN
               (CASE p.sub = "pulse" -> IF q.pv = 1 THEN p ELSE Norm(w, [p EXCEPT !.sub = "read"])
-                 [] p.sub = "read"  -> IF c # 0 /\ w.con[c].st = "open" /\ q.pl = "r"
-                                       THEN IF w.con[c].inq # <<>> THEN [p EXCEPT !.sub = "msg", !.c = c, !.rx = s]
+                 [] p.sub = "read"  -> IF c # 0 /\ w.con[c].st \in {"open", "conn"} /\ q.pl = "r"
+                                       THEN IF Broken(w.con[c]) THEN [p EXCEPT !.sub = "rderr"]
+                                            ELSE IF w.con[c].inq # <<>> THEN [p EXCEPT !.sub = "msg", !.c = c, !.rx = s]
                                             ELSE IF w.con[c].pcl = 1 THEN [p EXCEPT !.sub = "rderr"]
                                             ELSE Norm(w, [p EXCEPT !.sub = "write"])
                                        ELSE Norm(w, [p EXCEPT !.sub = "write"])
-                 [] p.sub = "msg"   -> IF w.con[p.c].st = "open" /\ w.con[p.c].inq # <<>> THEN p ELSE Norm(w, [p EXCEPT !.sub = "write", !.c = 0, !.rx = 0])
+                 [] p.sub = "msg"   -> IF w.con[p.c].st \in {"open", "conn"} /\ w.con[p.c].inq # <<>> THEN p ELSE Norm(w, [p EXCEPT !.sub = "write", !.c = 0, !.rx = 0])
                  [] p.sub = "rderr" -> p
-                 [] p.sub = "write" -> IF c # 0 /\ w.con[c].st = "conn" /\ q.pl = "w" THEN p ELSE Norm(w, [p EXCEPT !.i = @ + 1, !.sub = "pulse"]))
+                 [] p.sub = "write" -> IF c # 0 /\ (q.ca = 1 \/ Dev("FinalizeBySocket")) /\ w.con[c].st = "conn" /\ q.pl = "w" THEN p ELSE Norm(w, [p EXCEPT !.i = @ + 1, !.sub = "pulse"]))
      [] p.p = "acc" -> IF w.fac.st = "att" /\ w.fac.ap = 1 /\ w.fac.pq # <<>> /\ p.sub # "done" THEN p
                        ELSE IF Dev("DucksNotFlushedAtEnd") THEN [p EXCEPT !.p = "end"] ELSE Norm(w, [p EXCEPT !.p = "ducks", !.nx = "end", !.sub = ""])
      [] OTHER -> p                                                               \* prep, end, clean, idle, done
@@ -297,7 +301,7 @@ AddConn(p, d, ard) ==
           rec == IF sync THEN NewCon("tcp", "open", 1, 0, 1) ELSE IF fake THEN NewCon("fake", "open", 0, 1, 0) ELSE NewCon("tcp", "conn", IF d = "up" THEN 1 ELSE 0, 0, IF d = "up" THEN 1 ELSE 0)
           w0 == [Cur EXCEPT !.nid = n + 1, !.ses[n] = [NewSes(p, "add") EXCEPT !.dest = d, !.ic = IF sync THEN 1 ELSE 0, !.ca = IF sync \/ fake THEN 0 ELSE 1]]
           w1 == [Emit(NewConn(w0, rec), n, "Gw", 0) EXCEPT !.gws = Append(@, c), !.ses[n].g = Len(gws) + 1]
-          ra == Attach(Emit(w1, n, "Io", 0), n)
+          ra == Attach(IF Dev("ConnectBeforeAttach") THEN Emit(Emit(w1, n, "Io", 0), n, "ACC", 0) ELSE Emit(w1, n, "Io", 0), n)
           w2 == IF ra.ok = 1
                 THEN LET w3 == [ra.w EXCEPT !.ses[n].ard = IF ard = 1 THEN 1 ELSE @]
                      IN IF w3.ses[n].ic = 1 THEN CB([w3 EXCEPT !.ses[n].wc = 1], n, "ACC", 0) ELSE w3
@@ -320,17 +324,18 @@ AddDorm(p, d, ard) ==
       IN Apply(w2, pc, TRUE, "AddDorm", [s |-> n, ok |-> p.ok, ccc |-> p.ccc, ds |-> p.ds, dest |-> d, ard |-> ard], ra.ok)
 
 \* the driver calls a public method between two iterations
-Ext(m) ==
-   /\ Idle /\ "Ext" \in Ops
+ExtUseful(m) ==                       \* (pruning of the generated graphs only: the other calls are legal, and do nothing)
    /\ (m[1] \in {"Quit", "Add", "AddF"} \/ (m[2] \in 1..N /\ ses[m[2]].life = "att"))
    /\ (m[1] \in {"Add", "AddF", "Repl", "ReplF"} => nid <= N)
    /\ (m[1] = "Quit" => run = 1)
+Ext(m) ==
+   /\ Idle /\ "Ext" \in Ops
    /\ Apply(Do(Cur, 0, m[1], m[2]), pc, TRUE, "Ext", [op |-> m[1], t |-> m[2]], 0)
 
 \* ------------------------------------------------------------------------------------------------ the peers, the harness
 Send(c, m) ==
    /\ Idle /\ "Send" \in Ops /\ c \in 1..Len(con)
-   /\ con[c].hp = 1 /\ con[c].pcl = 0 /\ con[c].st \in {"open", "conn", "pend"} /\ Len(con[c].inq) < MaxQ
+   /\ con[c].hp = 1 /\ con[c].pcl = 0 /\ con[c].st \in {"open", "conn", "pend"}
    /\ Apply([Cur EXCEPT !.con[c].inq = Append(@, m)], pc, TRUE, "Send", [c |-> c, act |-> m[1], t |-> m[2]], 1)
 Close(c) ==
    /\ Idle /\ "Close" \in Ops /\ c \in 1..Len(con)
@@ -338,7 +343,7 @@ Close(c) ==
    /\ Apply([Cur EXCEPT !.con[c].pcl = 1], pc, TRUE, "Close", [c |-> c], 1)
 \* a peer connects to the factory's port
 PConn(mode) ==
-   /\ Idle /\ "Fac" \in Ops /\ fac.st = "att" /\ Len(fac.pq) < 2
+   /\ Idle /\ "Fac" \in Ops /\ fac.st = "att"
    /\ Apply([NewConn(Cur, NewCon("tcp", "pend", 1, 0, 1)) EXCEPT !.fac.pq = Append(@, <<Len(con) + 1, mode>>)], pc, TRUE, "PConn", [f |-> 1, m |-> mode], 1)
 PutFac ==
    /\ Idle /\ "Fac" \in Ops /\ fac.st = "none"
@@ -352,10 +357,10 @@ Arm(m) ==
    /\ Apply([Cur EXCEPT !.arm = [on |-> 1, s |-> m.s, cb |-> m.cb, act |-> m.act, t |-> m.t]], pc, TRUE, "Arm", m, 0)
 \* the server's clock passes every scheduled reconnect time
 Clock ==
-   /\ Idle /\ "Clock" \in Ops /\ \E s \in 1..N : ses[s].rt = "pend"
+   /\ Idle /\ "Clock" \in Ops
    /\ Apply([Cur EXCEPT !.ses = [s \in 1..N |-> IF ses[s].rt = "pend" THEN [ses[s] EXCEPT !.rt = "due"] ELSE ses[s]]], pc, TRUE, "Clock", [x |-> 0], 0)
 Wp(s) ==
-   /\ Idle /\ "Wp" \in Ops /\ ses[s].life = "att" /\ ses[s].wp = 0
+   /\ Idle /\ "Wp" \in Ops /\ ses[s].life = "att"
    /\ Apply([Cur EXCEPT !.ses[s].wp = 1, !.ses[s].pv = 0], pc, TRUE, "Wp", [s |-> s], 0)
 
 \* ------------------------------------------------------------------------------------------------ one iteration of the event loop: ServerProcessLoop(0)
@@ -383,7 +388,9 @@ iPrep ==
    /\ pc.p = "prep"
    /\ LET f(s) == LET q == ses[s]  c == CnOf(Cur, s) IN
                   IF s \in Range(tbl)
-                  THEN [q EXCEPT !.pl = IF c # 0 /\ con[c].st = "open" /\ (con[c].inq # <<>> \/ con[c].pcl = 1) THEN "r" ELSE IF c # 0 /\ con[c].st = "conn" THEN "w" ELSE "no",
+                  THEN [q EXCEPT !.pl = IF c # 0 /\ (q.ca = 1 \/ Dev("FinalizeBySocket")) /\ con[c].st = "conn" THEN "w"                              \* "so we can watch for the async-connect event"
+                                        ELSE IF c # 0 /\ q.ca = 0 /\ con[c].st \in {"open", "conn"} /\ (con[c].inq # <<>> \/ con[c].pcl = 1 \/ Broken(con[c])) THEN "r"
+                                        ELSE "no",
                                  !.pv = IF q.rt = "due" \/ q.wp = 1 THEN 1 ELSE 0]
                   ELSE q
           w == [Cur EXCEPT !.ses = [s \in 1..N |-> f(s)], !.fac.ap = IF fac.st = "att" /\ fac.pq # <<>> THEN 1 ELSE 0]
@@ -471,15 +478,17 @@ cFree ==
           w3 == FacDucks(w2)
       IN Apply(w3, [Pc0 EXCEPT !.p = "done"], FALSE, "cFree", [x |-> 0], 0)
 
+Inner == iDetach \/ iPrep \/ iPulse \/ iMsg \/ iRdErr \/ iWrite \/ iAccept \/ iEnd \/ cDet \/ cFree
 Next == \/ \E p \in Pers : AddSock(p) \/ AddBare(p)
         \/ \E p \in Pers, d \in Dests, a \in {0, 1} : AddConn(p, d, a) \/ AddDorm(p, d, a)
-        \/ \E m \in ExtMenu : Ext(m)
-        \/ \E c \in 1..Len(con) : Close(c) \/ \E m \in MsgMenu : Send(c, m)
-        \/ \E mode \in FacModes : PConn(mode)
-        \/ PutFac \/ RemFac \/ Clock \/ Pump \/ Cleanup
+        \/ \E m \in ExtMenu : ExtUseful(m) /\ Ext(m)
+        \/ \E c \in 1..Len(con) : Close(c) \/ \E m \in MsgMenu : Len(con[c].inq) < MaxQ /\ Send(c, m)
+        \/ \E mode \in FacModes : Len(fac.pq) < 2 /\ PConn(mode)
+        \/ PutFac \/ RemFac \/ Pump \/ Cleanup
+        \/ ((\E s \in 1..N : ses[s].rt = "pend") /\ Clock)
         \/ \E m \in ArmMenu : Arm(m)
-        \/ \E s \in 1..N : Wp(s)
-        \/ iDetach \/ iPrep \/ iPulse \/ iMsg \/ iRdErr \/ iWrite \/ iAccept \/ iEnd \/ cDet \/ cFree
+        \/ \E s \in 1..N : ses[s].wp = 0 /\ Wp(s)
+        \/ Inner
 
 Spec == Init /\ [][Next]_vars
 
